@@ -8,12 +8,12 @@ from mc.core import viol
 
 ID = 'C09'
 LEVEL = 'model_checking'
-RULE = ('explicit-state BFS over histories of runs on ONE recorder object: 36-letter run alphabet (record ok / raising / interrupted in the '
+RULE = ('explicit-state BFS over histories of runs on ONE recorder object: 39-letter run alphabet (record ok / raising / interrupted in the '
         'operation, in an input body, in an output body / discarded by operation, body, key fault, handler fault / sampled out / forced / '
         'forced-but-ignored / many outputs / skipped class / disabled / failing save / failing extractor / worker-thread interception; '
         'replay ok / with outputs / missing id / escaping missing key / playback function raising or interrupted / operation raising); '
         'state = canon(vars(recorder)) + interception flag on main and pool thread; searched to closure, and additionally EVERY history up '
-        'to the depth bound is followed by each of 7 differential probes compared with the same probe on a fresh recorder. Non-trivial = '
+        'to the depth bound is followed by each of 10 differential probes compared with the same probe on a fresh recorder. Non-trivial = '
         'history with at least one abnormal run.')
 ASSUMPTIONS = ['RNG state abstracted to the scripted draw counter (its value matters to C17 only)',
                'the recorder object and the thread-local flag are the only recorder state (module globals are covered by the probes, not the state hash)']
@@ -32,6 +32,7 @@ RUNS = {
     'rec-discard-op': ('rec', {'steps': [O1, {'do': 'discard'}, A]}),
     'rec-discard-body': ('rec', {'steps': [O1, dict(A, pre=[{'do': 'discard'}]), O2]}),
     'rec-keyfault': ('rec', {'steps': [O1, dict(A, fault='key'), O2]}),
+    'rec-keyfault-x3': ('rec-x3', {'steps': [O1, dict(A, fault='key'), O2]}),
     'rec-handlerfault': ('rec', {'steps': [O1, {'fn': 'out_hdl', 'a': ['x1'], 'fault': 'handler'}, O2]}),
     'rec-sampled-out': ('rec', {'steps': BASE, 'cls': 'K0'}),
     'rec-forced': ('rec', {'steps': [{'do': 'force'}] + BASE, 'cls': 'K0'}),
@@ -59,9 +60,13 @@ RUNS = {
     'play-op-raises': ('play', {'steps': [O1], 'end': 'raise:E1'}),
     'play-op-intr': ('play', {'steps': [O1, O2], 'end': 'intr'}),
     'play-thread': ('play', {'steps': [O1, {'do': 'thr', 'steps': [A, O2]}]}),
+    # replays of OTHER recordings (the studio replays many recordings through one recorder)
+    'play-fallback-of-old-recording': ('play-r1', {'steps': [{'fn': 'in_fb', 'a': ['x1']}, O1]}),
+    'play-recording-without-new-output': ('play', {'steps': [O1, {'fn': 'out_nf', 'a': ['x1']}, O2]}),
 }
 NORMAL = ('rec-ok', 'play-ok')
-PROBES = ['rec', 'play', 'rate0', 'thread', 'rec-K0-forced', 'rec-interrupted', 'rec-raise-flex']
+PROBES = ['rec', 'play', 'rate0', 'thread', 'rec-K0-forced', 'rec-interrupted', 'rec-raise-flex', 'rec-nested', 'play-new-alias', 'play-new-output']
+EXTRA_FUNCS = {'out_nf': {'t': 'out', 'style': 'inst', 'alias': 'on', 'fail': False, 'default': 'v0'}}
 KCLASSES = {'K0': {'rate': 0.0}, 'K0i': {'rate': 0.0, 'ignore': True}, 'Ks': {'skipped': True}}
 
 
@@ -73,7 +78,7 @@ def bounds(tier):
 class World(object):
     def __init__(self):
         P.RT.reset()
-        self.env = P.Env(name='Op')
+        self.env = P.Env(name='Op', funcs=EXTRA_FUNCS)
         for k, prm in KCLASSES.items():
             self.env.add_class(k, params=prm)
         self.env.add_class('Kx', ext='raise')
@@ -81,6 +86,10 @@ class World(object):
         # the fixed recording the replays use
         r = P.record({'steps': BASE}, env=self.env)
         self.fixed = r.rec_id
+        # R1: data of the renamed input is stored under the OLD alias; R2: under the new alias; R3: has a result for the newer output
+        self.r1 = P.record({'steps': [{'fn': 'in_a', 'a': ['x1'], 'ret': 'u1'}, O1]}, env=self.env).rec_id
+        self.r2 = P.record({'steps': [{'fn': 'in_fb', 'a': ['x1'], 'ret': 'u2'}, O1]}, env=self.env).rec_id
+        self.r3 = P.record({'steps': [O1, {'fn': 'out_nf', 'a': ['x1'], 'ret': 'u3'}, O2]}, env=self.env).rec_id
 
     def close(self):
         self.pw.stop()
@@ -91,6 +100,12 @@ class World(object):
         env = self.env
         if kind == 'rec':
             return P.record(prog, env=env)
+        if kind == 'rec-x3':
+            for _ in range(2):
+                P.record(prog, env=env)
+            return P.record(prog, env=env)
+        if kind == 'play-r1':
+            return P.replay(env, self.r1, prog)
         if kind == 'rec-disabled':
             env.tr.disable_recording()
             try:
@@ -160,6 +175,15 @@ class World(object):
         if kind == 'rec-raise-flex':    # a serializable instance of an exception type is recorded as the exception itself
             r = P.record({'steps': [O1], 'end': 'raise:FlexGood'}, env=env)
             return self._rec_summary(r)
+        if kind == 'rec-nested':        # nested interceptions stay suppressed on this thread
+            r = P.record({'steps': [{'fn': 'in_b', 'a': ['x2'], 'ret': 'vs', 'pre': [dict(A), dict(O1)]}, O1]}, env=env)
+            return self._rec_summary(r)
+        if kind == 'play-new-alias':    # a recording holding the renamed input under its NEW alias
+            pl = P.replay(env, self.r2, {'steps': [{'fn': 'in_fb', 'a': ['x1']}, O1]})
+            return ('play', P.obs_canon(pl.obs), type(pl.exc).__name__ if pl.exc else None)
+        if kind == 'play-new-output':   # a recording that HAS a result for the output other recordings lack
+            pl = P.replay(env, self.r3, {'steps': [O1, {'fn': 'out_nf', 'a': ['x1']}, O2]})
+            return ('play', P.obs_canon(pl.obs), type(pl.exc).__name__ if pl.exc else None)
         if kind == 'rec-K0-forced':
             r = P.record({'steps': [{'do': 'force'}, O1], 'cls': 'K0'}, env=env)
             r2 = P.record({'steps': [O1], 'cls': 'K0'}, env=env)
